@@ -401,6 +401,7 @@ type tcpClient struct {
 }
 
 func dialSrv(port int) (*tcpClient, error) {
+	sconn.NextSeq() // progress for the child watchdog
 	c, err := net.DialTimeout("tcp", fmt.Sprintf("127.0.0.1:%d", port), 5*time.Second)
 	if err != nil {
 		return nil, err
@@ -418,6 +419,7 @@ func (t *tcpClient) do(args ...string) (resp.Value, error) {
 }
 
 func (t *tcpClient) read() (resp.Value, error) {
+	sconn.NextSeq() // progress for the child watchdog
 	tmp := make([]byte, 4096)
 	for {
 		v, n, st, why := resp.Decode(t.buf)
